@@ -231,6 +231,7 @@ struct HLive : Harness {
         else if (c.rt == T_PCA) {
           if (a_size(deg.varexp) != ncomp_eff) o.fail("shape", "PCA: explained-variance vector has the wrong length");
           LMat Ek = E;
+          LD en0 = lfro(E);
           for (size_t k = 0; k < ncomp_eff && !o.violation; k++) {
             if (k < rank) {
               LVec pk(c.p), tk(c.n);
@@ -239,8 +240,8 @@ struct HLive : Harness {
               for (int i = 0; i < c.n; i++) { tk[i] = deg.scores[i][k]; fin = fin && std::isfinite(deg.scores[i][k]); }
               if (!fin) { char m[200]; snprintf(m, sizeof m, "PCA on %s input: component %zu of %zu defined ones is not finite", deg_name[c.deg], k + 1, rank); o.fail("non-finite-leading-component", m); break; }
               if (fabsl(lnorm(pk) - 1) > 1e-8L) o.fail("identity", "PCA: leading loading is not unit length on degenerate input");
-              LD en = lfro(Ek);
-              for (int i = 0; i < c.n && !o.violation; i++) { LD s = ldot(Ek[i], pk); if (fabsl(s - tk[i]) > 1e-7L * (en + 1e-300L)) { o.fail("identity", "PCA: leading score is not the projection of the deflated data on its loading (degenerate input)"); } }
+              // tolerance relative to the undeflated matrix: deflation itself carries rounding errors of that size
+              for (int i = 0; i < c.n && !o.violation; i++) { LD s = ldot(Ek[i], pk); if (fabsl(s - tk[i]) > 1e-9L * (en0 + 1e-300L)) { o.fail("identity", "PCA: leading score is not the projection of the deflated data on its loading (degenerate input)"); } }
               for (int i = 0; i < c.n; i++) for (int j = 0; j < c.p; j++) Ek[i][j] -= tk[i] * pk[j];
             } else {
               if (deg.varexp[k] != deg.varexp[k]) { char m[200]; snprintf(m, sizeof m, "PCA on %s input: explained variance of component %zu (beyond rank %zu) is NaN", deg_name[c.deg], k + 1, rank); o.fail("nan-beyond-rank", m); }
@@ -254,7 +255,12 @@ struct HLive : Harness {
           PreArg py{&c.Y, c.ys, {}};
           sim_guard(call_preprocess, &py);
           bool ynull = true; for (auto &r : py.E) for (double v : r) if (v != 0) ynull = false;
-          size_t defined = ynull ? 0 : std::min(rank, ncomp_eff);
+          // a latent variable needs covariance between the blocks: ||X'Y|| clearly above rounding level
+          LMat Yl = to_l(py.E);
+          LD cov = 0; for (size_t a = 0; a < (size_t)c.p; a++) for (size_t b2 = 0; b2 < Yl[0].size(); b2++) { LD sacc = 0; for (int i = 0; i < c.n; i++) sacc += E[i][a] * Yl[i][b2]; cov += sacc * sacc; }
+          bool covnull = sqrtl(cov) <= 1e-9L * (lfro(E) * lfro(Yl) + 1e-300L);
+          if (covnull && !ynull) o.counters["probe.no_covariance_between_blocks"]++;
+          size_t defined = (ynull || covnull) ? 0 : std::min(rank, ncomp_eff);
           if (deg.xvarexp.size() != ncomp_eff) o.fail("shape", "PLS: x explained-variance vector has the wrong length");
           for (size_t k = 0; k < ncomp_eff && !o.violation; k++) {
             if (k < defined && k == 0) {  // the first latent variable is defined whenever X and Y carry any variance
